@@ -2,7 +2,7 @@ import CanvasModel.C16
 import Mathlib.Tactic.Ring
 import Mathlib.Tactic.FieldSimp
 import Mathlib.Tactic.Linarith
-/-! Lemmas for C16 (e), (f): horizontal alignment arithmetic and line stacking over an ordered field. -/
+/-! Lemmas for C16 (e): horizontal placement of the spans of a line over an ordered field. -/
 set_option linter.unusedSectionVars false
 set_option linter.unusedSimpArgs false
 namespace Canvas.C16
@@ -11,62 +11,73 @@ variable {K : Type} [Field K] [LinearOrder K] [IsStrictOrderedRing K]
 /-- where the spans of a line start before the alignment shift: the indent on the first line -/
 def ind (indent : K) (first : Bool) : K := if first then indent else 0
 
-theorem lineX0_left (width tw indent : K) (first : Bool) :
-    lineX0 HAlign.left width tw indent first = ind indent first := by
-  cases first <;> simp [lineX0, ind]
+/-- positions `xs` with widths `ws` follow each other from `a` and end at `b` -/
+def Follows : K → List K → List K → K → Prop
+  | a, [], [], b => a = b
+  | a, x :: xs, w :: ws, b => x = a ∧ Follows (a + w) xs ws b
+  | _, _, _, _ => False
 
-theorem lineX0_justify (width tw indent : K) (first : Bool) :
-    lineX0 HAlign.justify width tw indent first = ind indent first := by
-  cases first <;> simp [lineX0, ind]
+theorem layoutFrom_follows (ws : List K) : ∀ a, Follows a (layoutFrom a ws).1 ws (layoutFrom a ws).2 := by
+  induction ws with
+  | nil => intro a; simp [layoutFrom, Follows]
+  | cons w r ih => intro a; simp only [layoutFrom, Follows, true_and]; exact ih _
 
-/-- a right-aligned line ends at the width, whatever the shown width `tw` is -/
-theorem lineX0_right (width tw indent : K) (first : Bool) :
-    lineX0 HAlign.right width tw indent first + tw = width := by
-  cases first <;> simp only [lineX0, if_true, if_false, Bool.false_eq_true] <;> ring
+theorem layoutFrom_end (ws : List K) : ∀ a, (layoutFrom a ws).2 = a + ws.sum := by
+  induction ws with
+  | nil => intro a; simp [layoutFrom]
+  | cons w r ih => intro a; simp only [layoutFrom, ih, List.sum_cons]; ring
 
-/-- a centred line is centred in `[indent, width]` (first line) resp. `[0, width]` -/
-theorem lineX0_center (width tw indent : K) (first : Bool) :
-    (lineX0 HAlign.center width tw indent first + (lineX0 HAlign.center width tw indent first + tw)) / 2
-      = (ind indent first + width) / 2 := by
-  cases first <;> simp only [lineX0, ind, if_true, if_false, Bool.false_eq_true] <;> ring
+theorem follows_shift (d : K) : ∀ (a : K) (xs ws : List K) (b : K), Follows a xs ws b →
+    Follows (a + d) (xs.map (· + d)) ws (b + d) := by
+  intro a xs
+  induction xs generalizing a with
+  | nil => intro ws b h; cases ws <;> simp_all [Follows]
+  | cons x r ih =>
+    intro ws b h
+    cases ws with
+    | nil => simp [Follows] at h
+    | cons w ws' =>
+      simp only [Follows, List.map_cons] at h ⊢
+      refine ⟨by rw [h.1], ?_⟩
+      have := ih (a + w) ws' b h.2
+      rw [show a + d + w = a + w + d by ring]; exact this
+
+/-- Left and Justify: the spans follow each other from the indent (first line) resp. from 0 -/
+theorem alignLine_left (width indent : K) (first : Bool) (ws : List K) :
+    Follows (ind indent first) (alignLine HAlign.left width indent first ws) ws (ind indent first + ws.sum) := by
+  have := layoutFrom_follows ws (if first then 0 + indent else 0)
+  rw [layoutFrom_end] at this
+  cases first <;> simpa [alignLine, ind] using this
+
+theorem alignLine_justify (width indent : K) (first : Bool) (ws : List K) :
+    Follows (ind indent first) (alignLine HAlign.justify width indent first ws) ws (ind indent first + ws.sum) := by
+  have := layoutFrom_follows ws (if first then 0 + indent else 0)
+  rw [layoutFrom_end] at this
+  cases first <;> simpa [alignLine, ind] using this
+
+/-- Right: the spans follow each other and the last one ends at the box width -/
+theorem alignLine_right (width indent : K) (first : Bool) (ws : List K) :
+    Follows (width - ws.sum) (alignLine HAlign.right width indent first ws) ws width := by
+  have h := layoutFrom_follows ws (if first then 0 + indent else 0)
+  have he := layoutFrom_end ws (if first then 0 + indent else 0)
+  have := follows_shift (width - (layoutFrom (if first then 0 + indent else 0) ws).2) _ _ _ _ h
+  simp only [alignLine]
+  convert this using 1 <;> rw [he] <;> ring
+
+/-- Center: the spans follow each other and are centred between the indent (first line) and the width -/
+theorem alignLine_center (width indent : K) (first : Bool) (ws : List K) :
+    ∃ a b, Follows a (alignLine HAlign.center width indent first ws) ws b ∧ b - a = ws.sum ∧
+      (a + b) / 2 = (ind indent first + width) / 2 := by
+  have h := layoutFrom_follows ws (if first then 0 + indent else 0)
+  have he := layoutFrom_end ws (if first then 0 + indent else 0)
+  have := follows_shift ((width - (layoutFrom (if first then 0 + indent else 0) ws).2) / 2) _ _ _ _ h
+  refine ⟨_, _, by simpa only [alignLine] using this, ?_, ?_⟩
+  · rw [he]; ring
+  · rw [he]; cases first <;> simp [ind] <;> ring
 
 /-- a line whose glue is adjusted by the ratio the breaker computed ends at the width -/
 theorem justified_width (natural stretch width : K) (hs : stretch ≠ 0) :
     natural + (width - natural) / stretch * stretch = width := by
   field_simp; ring
-
-theorem stack_ge (hs : List (LH K)) : ∀ y : K, (∀ h ∈ hs, 0 ≤ h.asc ∧ 0 ≤ h.bot) → ∀ v ∈ stack y hs, y ≤ v := by
-  induction hs with
-  | nil => intro y _ v hv; simp [stack] at hv
-  | cons h r ih =>
-    intro y hh v hv
-    have h0 := hh h (List.mem_cons_self ..)
-    simp only [stack, List.mem_cons] at hv
-    rcases hv with rfl | hv
-    · linarith
-    · have := ih (y + (h.asc + h.bot)) (fun h' hh' => hh h' (List.mem_cons_of_mem _ hh')) v hv
-      linarith
-
-theorem stack_sorted (hs : List (LH K)) : ∀ y : K, (∀ h ∈ hs, 0 ≤ h.asc ∧ 0 ≤ h.bot) →
-    (stack y hs).Pairwise (· ≤ ·) := by
-  induction hs with
-  | nil => intro y _; simp [stack]
-  | cons h r ih =>
-    intro y hh
-    have h0 := hh h (List.mem_cons_self ..)
-    have hr : ∀ h' ∈ r, 0 ≤ h'.asc ∧ 0 ≤ h'.bot := fun h' hh' => hh h' (List.mem_cons_of_mem _ hh')
-    simp only [stack, List.pairwise_cons]
-    refine ⟨?_, ih _ hr⟩
-    intro v hv
-    have := stack_ge r (y + (h.asc + h.bot)) hr v hv
-    linarith
-
-/-- consecutive baselines are one line height apart: bottom of the upper + ascent of the lower line -/
-theorem stack_gap (y : K) (h1 h2 : LH K) (r : List (LH K)) :
-    ∃ t, stack y (h1 :: h2 :: r) = (y + h1.asc) :: (y + h1.asc + (h1.bot + h2.asc)) :: t := by
-  refine ⟨stack (y + (h1.asc + h1.bot) + (h2.asc + h2.bot)) r, ?_⟩
-  simp only [stack]
-  congr 2
-  ring
 
 end Canvas.C16
